@@ -86,6 +86,7 @@ type PReq struct {
 	Hdr           [][2]string `json:"hdr,omitempty"`
 	AtMs          int64       `json:"at,omitempty"`
 	Expect100     bool        `json:"expect_100,omitempty"`  // with content: "Expect: 100-continue", the content follows a second after the head
+	Unsendable    bool        `json:"unsendable,omitempty"`  // the request carries a header line the server-side parser lets through and the upstream transport refuses to send: its own answer is an error
 	HelloDelayMs  int64       `json:"hello_delay,omitempty"` // tunnel: time between the proxy's 200 and the client's ClientHello
 	ReadChunk     int         `json:"read_chunk,omitempty"`
 	Disconnect    int         `json:"disconnect,omitempty"` // 0 none; -1 right after sending; k>0 after k body bytes
